@@ -212,6 +212,8 @@ class ExprMixin:
         sv = from_val(v, elem)
         if elem is not None and not elem.opt and elem.kind != 'val':
             st.assume(tag_pred(v, elem))          # typing assumption TYPES (element type of a typed list)
+        if sv.kind == 'ref':
+            st.assume(v == VRef(sv.t))            # canonical form: makes Addr-quantified triggers match this element
         self.assume_type(sv, st)
         return sv
 
@@ -435,20 +437,24 @@ class ExprMixin:
         raise Unsupported('unary op')
 
     def ev_BoolOp(self, e, st):
-        # value semantics; right operands must be effect-free on the heap to be merged (checked)
+        # value semantics; the right operand is evaluated in a forked state and the two states are merged (so that an
+        # operand that allocates, e.g. a comprehension, is handled like a conditional expression)
         vals = e.values
         res = self.ev(vals[0], st)
         for nxt in vals[1:]:
-            c = self.truthy(res, st)
-            take_next = c if isinstance(e.op, ast.And) else z3.Not(c)
-            sub = st.fork()
-            sub.assume(take_next)
-            npc = len(st.pc)
-            r2 = self.ev(nxt, sub)
-            if any(not z3.eq(sub.h.arr[n], st.h.arr[n]) for n in st.h.arr) or not z3.eq(sub.h.alloc, st.h.alloc):
-                raise Unsupported('side effect in right operand of and/or')
-            for f in sub.pc[npc + 1:]:
-                st.assume(z3.Implies(take_next, f))
+            c = z3.simplify(self.truthy(res, st))
+            take_next = c if isinstance(e.op, ast.And) else z3.simplify(z3.Not(c))
+            if z3.is_true(take_next):
+                res = self.ev(nxt, st)
+                continue
+            if z3.is_false(take_next):
+                break
+            n = len(st.pc)
+            sa = st.fork(); sa.pc.append(take_next)
+            r2 = self.ev(nxt, sa)
+            sb = st.fork(); sb.pc.append(z3.Not(take_next))
+            m = merge_states(n, take_next, sa, sb)
+            st.h, st.pc, st.locals = m.h, m.pc, m.locals
             res = merge_sv(take_next, r2, res)
         return res
 
@@ -479,6 +485,16 @@ class ExprMixin:
                 out.append(r if isinstance(op, ast.In) else z3.Not(r))
                 left = None
                 continue
+            if isinstance(op, (ast.In, ast.NotIn)) and isinstance(rhs, (ast.ListComp, ast.GeneratorExp)) and len(rhs.generators) == 1:
+                # x in [f(a) for a in L if c]  ==  any(f(a) == x for a in L if c): the temporary list is never observable
+                lhs_expr = e.left if rhs is e.comparators[0] else None
+                if lhs_expr is not None:
+                    g = ast.GeneratorExp(elt=ast.Compare(left=rhs.elt, ops=[ast.Eq()], comparators=[lhs_expr]), generators=rhs.generators)
+                    ast.copy_location(g, rhs); ast.fix_missing_locations(g)
+                    r = self.gen_any_all(g, st, True).t
+                    out.append(r if isinstance(op, ast.In) else z3.Not(r))
+                    left = None
+                    continue
             right = self.ev(rhs, st)
             out.append(self.compare(op, left, right, st))
             left = right
@@ -567,7 +583,13 @@ class ExprMixin:
         return g.target, g.iter, g.ifs
 
     def bound_iter(self, it_sv: SV, st: State):
-        """(list address, elem type) for a comprehension source"""
+        """(list address, elem type) for a comprehension source; the heap and the list term are made pattern-safe"""
+        named_heap(st)
+        if it_sv.kind in ('ref', 'val') and it_sv.t is not None:
+            it_sv = st.name_sv(it_sv)
+        return self._bound_iter(it_sv, st)
+
+    def _bound_iter(self, it_sv: SV, st: State):
         if it_sv.kind == 'val' and it_sv.ty is not None and it_sv.ty.kind == 'list':
             a = self.as_ref(it_sv, st, 'iteration')
             it_sv = sv_ref(a, List(it_sv.ty.elem))
@@ -647,7 +669,8 @@ class ExprMixin:
             wit = z3.Function('wit!lc%d' % self.uid(), Val, Val)
             fw = z3.substitute(fx, (xv, wit(yv)))
             cw = z3.substitute(z3.And(typing, inl, cond), (xv, wit(yv)))
-            st.assume(z3.ForAll([yv], z3.Implies(z3.Select(B, yv) > 0, z3.And(cw, fw == yv)), patterns=[z3.Select(B, yv)]))
+            canon = (wit(yv) == VRef(v_a(wit(yv)))) if (elem is not None and not elem.opt and elem.kind in ('obj', 'list', 'dict', 'set')) else z3.BoolVal(True)
+            st.assume(z3.ForAll([yv], z3.Implies(z3.Select(B, yv) > 0, z3.And(cw, fw == yv, canon)), patterns=[z3.Select(B, yv)]))
             st.assume(z3.ForAll([yv], z3.Select(B, yv) >= 0, patterns=[z3.Select(B, yv)]))
             if not ifs:
                 st.assume(n == h.len(l))
